@@ -184,6 +184,25 @@ def body(check):
     check.guarded("WAVE-ENCLOSE", "numflux", lambda: enclose(check, proj))
     check.guarded("DISSIP-SIGN", "numflux", lambda: dissip_sign(check, proj))
     check.guarded("RK-SSP", "integration", lambda: ssp(check, proj))
+    # the CFL premise needs the cell size handed to timestep() to be the cell's own (1D width, 2D
+    # dx*dy/(dx+dy)): same obligation as C18 DT-CELLSIZE
+    n0 = len(check.obs)
+    check.guarded("CFL-CELLSIZE", "modeldisc", lambda: c18.cellsize(check))
+    for o in check.obs[n0:]:
+        if o.rule == "DT-CELLSIZE":
+            o.rule = "CFL-CELLSIZE"
+    # the positivity proofs (Einfeldt, Batten et al.) are about the Godunov-type flux of the two- /
+    # three-wave approximate solver; when the whole fan runs to one side that flux is the physical
+    # flux of the upwind state.  Same obligation as C02 GVN-UPWIND, for the fluxes of this statement.
+    from .c02 import upwind
+    for key in ("euler1d", "euler2d", "shallowwater"):
+        for f, names in flux_kernels(proj, key):
+            if any((key, nm) in TARGETS for nm in names) and any(nm in ("hlle", "hllc", "hll") for nm in names):
+                n0 = len(check.obs)
+                check.guarded("FAN-UPWIND", f.qualname, lambda: upwind(check, key, f), f.loc())
+                for o in check.obs[n0:]:
+                    if o.rule == "GVN-UPWIND":
+                        o.rule = "FAN-UPWIND"
     for key in ("shallowwater", "euler1d", "euler2d"):
         n0 = len(check.obs)
         check.guarded("CFL-SPEED", key, lambda: c18.formula(check, key))
